@@ -32,7 +32,7 @@ def convSub (s : Distr.SubD) : Distr1.Sub :=
 def addrOf (e : Distr.Env) (a : Distr1.Acc) : Option String :=
   match a.ty with
   | .module => e.modAddr? a.id
-  | .base => some a.id
+  | .base => some (Distr.canonAddr a.id)
   | _ => none
 
 def stKey (s : Distr.DState) : Option Distr1.Acc := if s.burn then none else s.account.map convAcc
